@@ -151,14 +151,25 @@ class CHECK(Check):
     pid = "C17"
     technique = ("Lean 4 theorems over the Schedule model (nested fit loops = fold of single steps over the flat schedule; "
                  "step counts, slice cover, callback numbering, early stop; decision rules) + correspondence with a "
-                 "recording BackendEngine and with real PyTorch fit / partial_fit twins")
+                 "recording BackendEngine and with real PyTorch fit / partial_fit twins; translator tie: the schedule, stop rule, "
+                 "life-cycle latches and decision rules are LIFTED from the Python source (harness/lifters/adv_schedule.py -> "
+                 "Generated/AdvScheduleSrc.lean), interpreted by Model/SchedLifted.lean / SchedLife.lean, and the theorems are "
+                 "re-proved for the lifted text")
     level_text = ("Theorems (all n, batch_size, epochs, max_iter incl. -1, all stop predicates): steps = min(epochs*ceil(n/b), "
                   "max_iter); epochs=-1 gives exactly max_iter steps; each epoch's slices are consecutive, non-empty and cover "
                   "0..n; steps numbered 1,2,..; callbacks fire after every step except one exhausting max_iter; stop at first "
                   "True; the nested loops of fit equal the left fold of the single-step entry point over the scheduled "
                   "slices (n_iter_ = number of steps); predict returns a member of the class list (>= threshold -> larger "
                   "class; first arg-max). Tie: recorded train_step slices / callback calls vs the compiled model; real torch "
-                  "fit vs partial_fit twin compared bit for bit; predict vs _raw_predict through the rule.")
+                  "fit vs partial_fit twin compared bit for bit; predict vs _raw_predict through the rule. "
+                  "LIFTED configuration (rejection guard, batch-size / batches / epochs expressions incl. ceil, slice bounds, order of "
+                  "train_step / n_iter_ increment / max_iter test / callback block, stop accumulation `stop or result`, `return self` "
+                  "exits, shuffle placement, single train_step of partial_fit, >= threshold / first arg-max / identity rules): "
+                  "`lifted_cfg` proves it equal to the documented reference configuration and `src_*` re-prove step count, slice "
+                  "cover, callback numbering for ANY list of callbacks, first-True stop and fit = fold of partial_fit (also for the "
+                  "concrete projected-gradient step of C16) for the interpreter of the lifted text; life cycle (predict before fit "
+                  "rejected, first partial_fit sets up once, cold / warm fit, fit = partial_fit twin incl. set-up) over the lifted "
+                  "latch conditions.")
     design_ref = "DESIGN.md section 4, C17"
     quick_cases = 4000
     thorough_cases = 24000
@@ -172,14 +183,22 @@ class CHECK(Check):
             "binary/multiclass, predictor/adversary lists with 0-1 hidden layers, SGD or Adam, both constraints; rows are "
             "ordered so that EVERY scheduled slice has all classes' type_of_target and the first slice contains all classes "
             "(partial_fit's documented requirement); 'tie' variant: zero-initialised user modules with learning rate 0 so "
-            "outputs are exactly 0.5 / all equal. distinct = distinct case; non-trivial = at least 2 steps or a real-engine case")
+            "outputs are exactly 0.5 / all equal. life: call histories of 1-5 calls (fit cold / warm_start, partial_fit with or "
+            "without classes=, predict) on one estimator with the recording engine, n in 2..12. "
+            "distinct = distinct case; non-trivial = at least 2 steps / 2 calls or a real-engine case")
     explanation = ("theorems over the Lean model Schedule; correspondence: recorded slices and callback calls vs `sched.run` "
                    "and `sched.loop` of the compiled driver (exact), fit vs partial_fit twin weights (bit-equal), predict vs "
-                   "`sched.predbin/predmulti` on exactly converted raw outputs; oracle: closed-form schedule and the decision "
-                   "rule in Python, independent of fairlearn and of the Lean model")
+                   "`sched.predbin/predmulti` on exactly converted raw outputs; the same observations vs the interpreter of the "
+                   "LIFTED source (`schedsrc.fit` incl. the (callback, step) log, `schedsrc.predbin/predmulti`, `schedlife.run`); "
+                   "oracle: closed-form schedule, documented life cycle and the decision rule in Python, independent of fairlearn "
+                   "and of the Lean model. A model-vs-oracle disagreement is a HARNESS-ERROR only while Generated/AdvScheduleSrc.lean "
+                   "has the pinned content; after a source edit it is reported as broken tie `C17.lifted_cfg`.")
     trusted = ("torch determinism on CPU with one thread (fit vs twin compared bit for bit)",
                "string labels are mapped order-preservingly to integers before entering the model",
-               "the recording engine sees what a real engine would see (it is passed through the public backend= parameter)")
+               "the recording engine sees what a real engine would see (it is passed through the public backend= parameter)",
+               "harness/lifters/adv_schedule.py: Python ast -> SchedCfg record (int/bool expressions over + - * // ceil floor min max "
+               "== != < <= > >= and/or/not; statement roles found by data flow, everything else refused)",
+               "numpy slicing clips `X[lo:hi]` at the array end (only relevant if the source drops the `min`)")
     assumptions = ("shuffle=False", "every slice given to partial_fit has the data's type_of_target and the first slice "
                    "contains all classes (else fairlearn's transformers reject / re-fit)", "CPU, one thread")
 
